@@ -359,12 +359,16 @@ class RuntimeState(utils.NiceRepr):
                 # Determine if this impacts the local (inline) or global state.
                 if directive.inline:
                     state = self._inline_state
+                    if action.startswith('set.') and key not in state:
+                        # Inline changes to a set-valued item operate on a
+                        # local copy of the persistent set.
+                        state[key] = set(self._global_state[key])
                 else:
                     state = self._global_state
 
                 if action == 'set_report_style':
                     # Special handling of report style
-                    self.set_report_style(key.replace('REPORT_', ''))
+                    self.set_report_style(key.replace('REPORT_', ''), state)
                 elif action == 'assign':
                     state[key] = value
                 elif action == 'set.add':
